@@ -91,5 +91,92 @@ pub mod utils { pub mod serde_workaround {
 //@   rule R33
 //@   rule R36
 //@   rule R37
+
+// ---- C13 "deserialising those bytes yields an equal message": what `serialize` writes for q, presented on input (`wire_of`), has no
+// duplicates, has every required member, and each member's entry decodes to q's member (an absent optional member is absent and q's
+// member is its default, None).  With `visit_map`'s contract: a sound input of that shape is accepted and the message read equals q.
+// (proved by cases over which optional members are present)
+pub proof fn lemma_round_trip(q: Response)
+    ensures ({ let e = wire_of(ctap_entries(q)); let n = e.len() as int;
+        &&& dup_free(e, n)
+        &&& member::<String>(e, n, Ident::fmt) == Some(q.fmt)
+        &&& member::<AuthenticatorData>(e, n, Ident::auth_data) == Some(q.auth_data)
+        &&& member::<ciborium::value::Value>(e, n, Ident::att_stmt) == Some(q.att_stmt)
+        &&& q.ep_att == (match member::<Option<bool>>(e, n, Ident::ep_att) { Some(x) => x, None => <Option<bool> as VxDefault>::vx_default() })
+        &&& q.large_blob_key == (match member::<Option<Bytes>>(e, n, Ident::large_blob_key) { Some(x) => x, None => <Option<Bytes> as VxDefault>::vx_default() })
+        &&& q.unsigned_extension_outputs == (match member::<Option<UnsignedExtensionOutputs>>(e, n, Ident::unsigned_extension_outputs) { Some(x) => x, None => <Option<UnsignedExtensionOutputs> as VxDefault>::vx_default() })
+    })
+{
+    broadcast use axiom_member_round_trip;
+    reveal_with_fuel(occ, 8);
+    reveal_with_fuel(dup_free, 8);
+    let e = wire_of(ctap_entries(q));
+    assert(e.len() == ctap_entries(q).len());
+    if q.ep_att is Some {
+        if q.large_blob_key is Some {
+            if q.unsigned_extension_outputs is Some {
+                assert(ctap_entries(q).len() == 6);
+                assert(e[0] == (DeKey::U(1), ser_leaf(q.fmt)));
+                assert(e[1] == (DeKey::U(2), ser_leaf(q.auth_data)));
+                assert(e[2] == (DeKey::U(3), ser_leaf(q.att_stmt)));
+                assert(e[3] == (DeKey::U(4), ser_leaf(q.ep_att)));
+                assert(e[4] == (DeKey::U(5), ser_leaf(q.large_blob_key)));
+                assert(e[5] == (DeKey::U(6), ser_leaf(q.unsigned_extension_outputs)));
+            } else {
+                assert(ctap_entries(q).len() == 5);
+                assert(e[0] == (DeKey::U(1), ser_leaf(q.fmt)));
+                assert(e[1] == (DeKey::U(2), ser_leaf(q.auth_data)));
+                assert(e[2] == (DeKey::U(3), ser_leaf(q.att_stmt)));
+                assert(e[3] == (DeKey::U(4), ser_leaf(q.ep_att)));
+                assert(e[4] == (DeKey::U(5), ser_leaf(q.large_blob_key)));
+            }
+        } else {
+            if q.unsigned_extension_outputs is Some {
+                assert(ctap_entries(q).len() == 5);
+                assert(e[0] == (DeKey::U(1), ser_leaf(q.fmt)));
+                assert(e[1] == (DeKey::U(2), ser_leaf(q.auth_data)));
+                assert(e[2] == (DeKey::U(3), ser_leaf(q.att_stmt)));
+                assert(e[3] == (DeKey::U(4), ser_leaf(q.ep_att)));
+                assert(e[4] == (DeKey::U(6), ser_leaf(q.unsigned_extension_outputs)));
+            } else {
+                assert(ctap_entries(q).len() == 4);
+                assert(e[0] == (DeKey::U(1), ser_leaf(q.fmt)));
+                assert(e[1] == (DeKey::U(2), ser_leaf(q.auth_data)));
+                assert(e[2] == (DeKey::U(3), ser_leaf(q.att_stmt)));
+                assert(e[3] == (DeKey::U(4), ser_leaf(q.ep_att)));
+            }
+        }
+    } else {
+        if q.large_blob_key is Some {
+            if q.unsigned_extension_outputs is Some {
+                assert(ctap_entries(q).len() == 5);
+                assert(e[0] == (DeKey::U(1), ser_leaf(q.fmt)));
+                assert(e[1] == (DeKey::U(2), ser_leaf(q.auth_data)));
+                assert(e[2] == (DeKey::U(3), ser_leaf(q.att_stmt)));
+                assert(e[3] == (DeKey::U(5), ser_leaf(q.large_blob_key)));
+                assert(e[4] == (DeKey::U(6), ser_leaf(q.unsigned_extension_outputs)));
+            } else {
+                assert(ctap_entries(q).len() == 4);
+                assert(e[0] == (DeKey::U(1), ser_leaf(q.fmt)));
+                assert(e[1] == (DeKey::U(2), ser_leaf(q.auth_data)));
+                assert(e[2] == (DeKey::U(3), ser_leaf(q.att_stmt)));
+                assert(e[3] == (DeKey::U(5), ser_leaf(q.large_blob_key)));
+            }
+        } else {
+            if q.unsigned_extension_outputs is Some {
+                assert(ctap_entries(q).len() == 4);
+                assert(e[0] == (DeKey::U(1), ser_leaf(q.fmt)));
+                assert(e[1] == (DeKey::U(2), ser_leaf(q.auth_data)));
+                assert(e[2] == (DeKey::U(3), ser_leaf(q.att_stmt)));
+                assert(e[3] == (DeKey::U(6), ser_leaf(q.unsigned_extension_outputs)));
+            } else {
+                assert(ctap_entries(q).len() == 3);
+                assert(e[0] == (DeKey::U(1), ser_leaf(q.fmt)));
+                assert(e[1] == (DeKey::U(2), ser_leaf(q.auth_data)));
+                assert(e[2] == (DeKey::U(3), ser_leaf(q.att_stmt)));
+            }
+        }
+    }
+}
 } // verus!
 fn main() {}
